@@ -179,7 +179,8 @@ class Module:
         self.path = path
         self.relpath = os.path.relpath(path, program.root)
         self.source = source
-        self.tree = normalize(ast.parse(source, filename=path))
+        from .inline import inline_new_helpers
+        self.tree = normalize(inline_new_helpers(ast.parse(source, filename=path), self.short))
         self.funcs = {}  # qualname -> FuncInfo
         self.classes = {}  # name -> ClassInfo
         self.imports = {}  # local name -> ("mod", modname) | ("from", modname, attr)
